@@ -412,6 +412,7 @@ func keepsFrame(op compiler.Opcode) bool {
     ensures @raises isBinary(instruction.Opcode()) ==> (result != nil <==> raises(instruction.Opcode(), old(self.peek(0))))
     ensures @raises-kind isBinary(instruction.Opcode()) && result != nil ==> fatalOf(result, value.Vm_ValueErrorKind)
     ensures @effect covered(instruction.Opcode()) && result == nil ==> self.depth() == old(self.depth())+stackEffect(instruction.Opcode())
+    ensures @effect-the-code-generator-counts-with covered(instruction.Opcode()) && result == nil ==> self.depth() == old(self.depth())+compiler.VStackEffect(instruction)
     ensures @advance covered(instruction.Opcode()) && result == nil && keepsFrame(instruction.Opcode()) ==> len(self.CallStack) == old(len(self.CallStack)) && self.frameIP() == old(self.frameIP())+1
     ensures @unary result == nil && (instruction.Opcode() == compiler.Opcode_Neg || instruction.Opcode() == compiler.Opcode_Not) ==> unaryResult(instruction.Opcode(), old(self.peek(0)), self.peek(0))
     ensures @no-error-otherwise covered(instruction.Opcode()) && !isBinary(instruction.Opcode()) && instruction.Opcode() != compiler.Opcode_AddMempointer && instruction.Opcode() != compiler.Opcode_Member_Unwrap && instruction.Opcode() != compiler.Opcode_Eq && instruction.Opcode() != compiler.Opcode_Eq_PopOnce && instruction.Opcode() != compiler.Opcode_Throw && instruction.Opcode() != compiler.Opcode_Index && instruction.Opcode() != compiler.Opcode_Cast ==> result == nil
